@@ -58,6 +58,21 @@ fn gen(rng: &mut Rng, i: usize) -> Case {
     c
 }
 
+/// Witness of finding F12 (starved batcher), replayed by every run: `0` warms the path up; `15` finds
+/// the timer of its batcher elapsed and is flushed at once (`last_send` := now); `30`, `45` follow
+/// immediately and are buffered in block 1's batcher towards the downstream replica of key class 1;
+/// then block 1 keeps receiving elements of key class 2 (another replica) every millisecond, so its
+/// receive timeout never expires and nothing is ever enqueued into the batcher that holds `30`, `45`.
+fn witness_f12() -> Case {
+    let mut c = Case::new(&["latency", "2", "2", "100", "gb"]);
+    c.op(&["send", "0", "300"]);
+    c.op(&["send", "15", "0"]);
+    c.op(&["send", "30", "0"]);
+    c.op(&["send", "45", "2"]);
+    c.op(&["trickle", "18", "2300", "15", "1"]);
+    c
+}
+
 fn f(x: i64) -> i64 {
     x * 2 + 1
 }
@@ -212,6 +227,16 @@ fn verdict(r: &RunResult, d: u64, bound: Duration, v: i64, sent: Instant) -> (&'
     }
 }
 
+/// A lateness that is not an artefact of a slow machine: the element was OVERTAKEN — something sent
+/// more than half the bound later arrived before it (or it never arrived although later ones did).
+fn overtaken(r: &RunResult, d: u64, bound: Duration, v: i64, sent: Instant) -> bool {
+    let mine = r.arrivals.iter().find(|a| a.0 == g(d, v)).map(|a| a.1);
+    r.sends.iter().any(|(u, su)| {
+        *su >= sent + bound / 2
+            && r.arrivals.iter().any(|a| a.0 == g(d, *u) && mine.map(|m| a.1 < m).unwrap_or(true))
+    })
+}
+
 fn fmt_result(mode: &str, r: &RunResult) -> String {
     if r.hang {
         return format!("result {mode} hang");
@@ -245,18 +270,24 @@ fn exec(c: &Case) -> (Vec<String>, String) {
     let mut out = vec![];
     let mut info = String::new();
     // the timed adaptive run; a wall-clock bound on a busy machine can be missed by accident, the
-    // failure the property is about ("never flushed") cannot pass by accident: best of 3 attempts
+    // failure the property is about ("never flushed") cannot pass by accident: best of 3 attempts, unless
+    // every failure of an attempt is confirmed by overtaking (then it is reported at once)
     for attempt in 1..=3 {
         out.clear();
         let r = run_engine(d, p, kind, BatchMode::adaptive(1000, Duration::from_millis(delta)), &steps, true, bound + 200);
         let mut worst = Duration::ZERO;
         let mut all_ok = !r.hang;
+        // every failure of this attempt is confirmed by overtaking: no point in retrying
+        let mut confirmed = !r.hang;
         let mut idx = 0usize;
         let mut lats: Vec<String> = vec![];
         for st in &steps {
             match *st {
                 Step::Send(v, _) => {
                     let (w, lat) = verdict(&r, d, bound_d, v, r.sends[idx].1);
+                    if w != "ok" {
+                        confirmed &= overtaken(&r, d, bound_d, v, r.sends[idx].1);
+                    }
                     idx += 1;
                     worst = worst.max(lat.unwrap_or_default());
                     lats.push(lat.map(|l| l.as_millis().to_string()).unwrap_or("-".into()));
@@ -273,6 +304,7 @@ fn exec(c: &Case) -> (Vec<String>, String) {
                         if w != "ok" && line.ends_with(" ok") {
                             line = format!("t {first} {w}:{v}");
                             all_ok = false;
+                            confirmed = false;
                         }
                     }
                     out.push(line);
@@ -288,7 +320,7 @@ fn exec(c: &Case) -> (Vec<String>, String) {
             attempt,
             lats.join(",")
         );
-        if all_ok {
+        if all_ok || confirmed {
             break;
         }
     }
@@ -311,12 +343,16 @@ fn main() {
         read_cases(p)
     } else {
         let mut rng = Rng::new(args.seed);
-        (0..args.cases)
+        let mut v: Vec<(String, Case)> = (0..args.cases)
             .map(|i| {
                 let mut r = rng.fork();
                 (format!("latency-{}-{i}", args.seed), gen(&mut r, i))
             })
-            .collect()
+            .collect();
+        if args.cases > 0 {
+            v.push((format!("latency-{}-witnessF12", args.seed), witness_f12()));
+        }
+        v
     };
     let out = std::io::stdout();
     let mut out = std::io::BufWriter::new(out.lock());
